@@ -76,7 +76,7 @@ CHECKS["C12"] = {
     "level_text": "Thousands of random command sequences per run over <=4 keys and <=4 transactions with all relative timestamp orders; after every command the answer class/values and the complete per-key MVCC state (plus hidden lock fields through a probe) are compared with the reference model; idempotence, scan=gets, GC read preservation and the three 'reference is TiKV' clauses are asserted directly. Sampling, not proof; the exhaustive small-depth enumeration of the design is replaced by high-volume sampling of short sequences.",
     "level_note": "Trusted: the ~600-line reference model (harness/mvccmodel, contract in DESIGN.md Appendix A); where the statement is silent (error precedence when two errors apply, existence assertion over Lock records, deadlock vs locked) the model accepts either / copies the mock.",
     "tests": [
-        {"name": "TestMockVsModel", "quick": 3000, "thorough": 30000, "shards": 16},
+        {"name": "TestMockVsModel", "quick": 8000, "thorough": 30000, "shards": 16},
     ],
 }
 
@@ -187,8 +187,8 @@ CHECKS["C03"] = {
     "level_text": "Each generated scenario is executed once fault-free (twin), once per (request position, fault kind) and with 1-3 generated multi-fault plans, on mocktikv (2PC, virtual time) and unistore (async commit, 1PC). Faults are injected by the per-client RPC interposer; a resolver race runs another client, for which all locks look expired, while the victim's request is parked. Interleavings inside the store or inside the client between two requests are not enumerated.",
     "level_note": "Trusted: mocktikv (C12) and unistore as stores; the injected region errors are synthesised by the interposer (the store did not execute the request).",
     "tests": [
-        {"name": "TestTruthful", "quick": 15, "thorough": 250, "shards": 16, "timeout_q": 400, "timeout_t": 3000},
-        {"name": "TestTruthfulUni", "quick": 10, "thorough": 150, "shards": 16, "timeout_q": 400, "timeout_t": 3000},
+        {"name": "TestTruthful", "quick": 30, "thorough": 250, "shards": 16, "timeout_q": 400, "timeout_t": 3000},
+        {"name": "TestTruthfulUni", "quick": 20, "thorough": 150, "shards": 16, "timeout_q": 400, "timeout_t": 3000},
     ],
 }
 
@@ -229,7 +229,7 @@ CHECKS["C06"] = {
     "level_note": "Trusted: mocktikv / unistore; drain detection by RPC silence plus polling.",
     "tests": [
         {"name": "TestNoLeftoverLocks", "quick": 500, "thorough": 6000, "shards": 16, "timeout_q": 400},
-        {"name": "TestNoLeftoverLocksUni", "quick": 1000, "thorough": 3000, "shards": 16, "timeout_q": 400},
+        {"name": "TestNoLeftoverLocksUni", "quick": 1600, "thorough": 3000, "shards": 16, "timeout_q": 400},
     ],
 }
 
@@ -240,8 +240,8 @@ CHECKS["C14"] = {
     "level_text": "Four generated checks: GC lock resolution on mocktikv and unistore (async-commit / 1PC leftovers), range-task cover, delete-range against a map model, refusal of reads below the cached transaction safe point on all four read paths.",
     "level_note": "Trusted: mocktikv / unistore stores and their PD mocks (AdvanceTxnSafePoint, UpdateGCSafePoint). The GC worker of TiDB (delete-ranges phase, safe point computation) is outside client-go.",
     "tests": [
-        {"name": "TestGCLocks", "quick": 800, "thorough": 3000, "shards": 16, "timeout_q": 400},
-        {"name": "TestGCLocksUni", "quick": 400, "thorough": 1500, "shards": 16, "timeout_q": 400},
+        {"name": "TestGCLocks", "quick": 1200, "thorough": 3000, "shards": 16, "timeout_q": 400},
+        {"name": "TestGCLocksUni", "quick": 800, "thorough": 1500, "shards": 16, "timeout_q": 400},
         {"name": "TestRangeTask", "quick": 1500, "thorough": 20000, "shards": 8, "timeout_q": 400},
         {"name": "TestDeleteRange", "quick": 400, "thorough": 5000, "shards": 8, "timeout_q": 400},
         {"name": "TestSafePointRefusal", "quick": 300, "thorough": 2000, "shards": 2, "timeout_q": 200},
